@@ -25,7 +25,7 @@ V20 == <<50, 46, 48, 10>>          \* "2.0\n"
 
 \* what the property says about the debian-binary text
 BinaryClass(text) ==
-    IF text = V20 THEN "ok"
+    IF Len(text) >= 4 /\ SubSeq(text, 1, 4) = V20 THEN "ok"       \* first line "2.0"; deb(5): further lines are to be ignored
     ELSE IF Len(text) >= 2 /\ IsDigit(text[1]) /\ text[2] = DOT /\ text[1] # 50 THEN "reject"   \* major version not 2
     ELSE "unspecified"                                                       \* 2.1, missing newline, junk
 
